@@ -431,16 +431,10 @@ Definition create_map (t : table) (now : Z) (ru : rule) (ks : list col) (m : lis
            else mk_result zero_rec 0 false 1 t
        end.
 Definition map_keys (ms : list (list (col * val))) : list col := flat_map (map fst) ms.
-(* UpdateAll over columns that leave nothing to set becomes DO NOTHING but keeps OnConflict.Where: the statement
-   reads "... DO NOTHING WHERE ..." and the database rejects it (known finding update-all-nothing-where) *)
-Fixpoint all_is_nothing (ru : rule) (ks : list col) : bool :=
-  match ru with
-  | RAll => match mall_cols ks with [] => negb (named ks CUat) | _ => false end
-  | RTarget _ r => all_is_nothing r ks
-  | _ => false
-  end.
-Definition where_on_nothing (ru : rule) (ks : list col) : bool :=
-  match ru with RWhere _ r => all_is_nothing r ks | _ => false end.
+(* UpdateAll over columns that leave nothing to set becomes DO NOTHING; an OnConflict.Where given with it is
+   left out of the statement (since /repo commit b84cf7b; before, "DO NOTHING WHERE ..." was rejected by the
+   database: fixed finding update-all-nothing-where): the colliding row stays untouched, no error — which is
+   what mrule_fires / moc_apply say for RWhere k RAll when RAll has nothing to set. *)
 Definition create_maps_run (t : table) (now : Z) (ru : rule) (ms : list (list (col * val))) : table * Z :=
   fold_left (fun acc m => let r := create_map (fst acc) now ru (map_keys ms) m in (res_tbl r, snd acc + res_ra r))
             ms (t, 0).
@@ -503,9 +497,7 @@ Definition step (keep : bool) (t : table) (now : Z) (ch : list cel) (f : fin) : 
                      mk_result (last (snd run) zero_rec) (Z.of_nat (length vs)) false 1 (fst run)
   | FSaveOmit os v => save_omit t now os v
   | FCreateU ru tgt v => create_u t now ru tgt v
-  | FCreateMaps ru ms =>
-      if where_on_nothing ru (map_keys ms) then mk_result zero_rec 0 true 1 t
-      else let run := create_maps_run t now ru ms in mk_result zero_rec (snd run) false 1 (fst run)
+  | FCreateMaps ru ms => let run := create_maps_run t now ru ms in mk_result zero_rec (snd run) false 1 (fst run)
   | FCSave v => csave t v
   | FCSaveSlice vs => let run := csave_slice t vs in mk_result zero_rec (snd run) false 1 (fst run)
   | FCCreateOC ru v => ccreate t (Some ru) v
